@@ -86,7 +86,12 @@ func (k Keeper) CalculateReward(ctx sdk.Context, addr sdk.AccAddress, id uint64)
 			// Voter info exists for this past dispute
 			addrReporterPower = addrReporterPower.Add(pastVoterInfo.ReporterPower)
 			addrTokenholderPower = addrTokenholderPower.Add(pastVoterInfo.TokenholderPower)
-			userTips, err := k.GetUserTotalTips(ctx, addr, pastId)
+			// tips count as of the block of the round they were voted with (see Vote)
+			pastDispute, err := k.Disputes.Get(ctx, pastId)
+			if err != nil {
+				return math.Int{}, err
+			}
+			userTips, err := k.GetUserTotalTips(ctx, addr, pastDispute.BlockNumber)
 			if err != nil {
 				return math.Int{}, err
 			}
